@@ -27,6 +27,7 @@ type vOp struct {
 	Code     string `json:"code"`    // verify: right | wrong | other (another pair's code)
 	Hash     string `json:"hash"`    // verify: right | wrong | other | stale (hash of the previous send to this pair)
 	As       int    `json:"as"`      // verify: pair whose (area, phone) is presented (-1 = same as Pair)
+	Rep      int    `json:"rep,omitempty"` // send / verify: the operation is issued this many times in a row (0 = once): counters past 255 / 256
 	AdvSec   int    `json:"adv_sec"` // adv
 	AdvToKey string `json:"adv_to"`  // adv: "", or jump relative to a threshold: ttl- ttl+ min- min+ cnt- cnt+ (just before / after)
 }
@@ -64,6 +65,13 @@ func drawC19(rt *rapid.T) interface{} {
 	sc.CntHalf = rapid.SampledFrom([]int{0, 10, 100, 1000000}).Draw(rt, "cnt")
 	sc.MaxCount = rapid.SampledFrom([]int{0, 1, 2, 3, 10}).Draw(rt, "maxcount")
 	sc.MaxVer = rapid.SampledFrom([]int{0, 1, 2, 3, 5}).Draw(rt, "maxver")
+	// 1 in 16: histories with long runs of one operation (more than 256 attempts on one code, more than 256 sends in one
+	// window) - a bound must still hold when a counter has passed the range of a byte
+	long := rapid.IntRange(0, 15).Draw(rt, "long") == 0
+	if long {
+		sc.MaxCount = rapid.SampledFrom([]int{3, 10, 300}).Draw(rt, "maxcount-long")
+		sc.MaxVer = rapid.SampledFrom([]int{1, 3, 5, 300}).Draw(rt, "maxver-long")
+	}
 	sc.Cache = rapid.SampledFrom([]int64{1000, 1000, 1000, 2, 3}).Draw(rt, "cachesize")
 	np := rapid.IntRange(1, 3).Draw(rt, "npairs")
 	if sc.Cache < 10 {
@@ -87,6 +95,9 @@ func drawC19(rt *rapid.T) interface{} {
 		case "adv":
 			op.AdvSec = rapid.SampledFrom([]int{0, 1, 3, 10, 100}).Draw(rt, "adv")
 			op.AdvToKey = rapid.SampledFrom([]string{"", "", "ttl-", "ttl+", "min-", "min+", "cnt-", "cnt+"}).Draw(rt, "advto")
+		}
+		if long && op.Op != "adv" && rapid.IntRange(0, 3).Draw(rt, "rep") == 0 {
+			op.Rep = rapid.SampledFrom([]int{250, 255, 256, 257, 300, 515}).Draw(rt, "reps")
 		}
 		sc.Ops = append(sc.Ops, op)
 	}
@@ -222,7 +233,18 @@ func runC19(t *testing.T, sci interface{}, keepLog bool) *hx.Outcome {
 			}
 		}
 	}
-	for i, op := range sc.Ops {
+	// runs of one operation are spelled out
+	var ops []vOp
+	for _, op := range sc.Ops {
+		ops = append(ops, op)
+		for k := 1; k < op.Rep; k++ {
+			ops = append(ops, op)
+		}
+		if op.Rep > 255 {
+			o.Counts["run-of-more-than-255-"+op.Op]++
+		}
+	}
+	for i, op := range ops {
 		if o.Class != "" {
 			break
 		}
@@ -471,9 +493,9 @@ func TestC19(t *testing.T) {
 		Run:         runC19,
 		Real:        []string{"vcode (simgen-transformed: its clock is the simulated one)", "idgen/random.SecGenNonceStr (simgen-transformed: crypto/rand is the seeded stream)", "cache.LRUCache", "satori/go.uuid + md5 (hash; un-shimmed, treated as opaque)"},
 		Stubs:       []string{"time (simtime.Manual: whole-second monotone clock, thresholds at n+0.5 s)", "crypto/rand (simcrand seeded stream)", "SMS sender (captures the code)"},
-		Rule: "two classes: logic = config (code length 1-8, lifetime / minimum interval / counting window at n+0.5 s incl. always and never regimes, count limit 0-10, attempt limit 0-5, mock or real sender) x 1-3 (area, phone) pairs, some of which collide when concatenated without a separator, x up to 30 ops: send, verify(right|wrong|another pair's code x right|wrong|another pair's|stale hash, optionally presented under another pair), clock advances incl. jumps to just before / after each threshold; checked against a reference record per pair; " +
+		Rule: "two classes: logic = config (code length 1-8, lifetime / minimum interval / counting window at n+0.5 s incl. always and never regimes, count limit 0-10, attempt limit 0-5, mock or real sender) x 1-3 (area, phone) pairs, some of which collide when concatenated without a separator, x up to 30 ops: send, verify(right|wrong|another pair's code x right|wrong|another pair's|stale hash, optionally presented under another pair), clock advances incl. jumps to just before / after each threshold (1 in 16 histories: limits up to 300 and runs of 250-515 repetitions of one send or verify); checked against a reference record per pair; " +
 			"alphabet = 2000-3000 real-sender codes: length and every digit occurs; non-trivial = >=3 ops; distinct = distinct hash of the operation/result log (hashes named by equality class)",
-		Probes: []string{"class-logic", "class-alphabet", "send-accepted", "send-too-soon", "send-over-count-limit", "verify-ok", "verify-over-attempt-limit", "verify-after-lifetime", "verify-as-other-pair", "advance-to-threshold", "pair-under-eviction-pressure"},
+		Probes: []string{"class-logic", "class-alphabet", "send-accepted", "send-too-soon", "send-over-count-limit", "verify-ok", "verify-over-attempt-limit", "verify-after-lifetime", "verify-as-other-pair", "advance-to-threshold", "pair-under-eviction-pressure", "run-of-more-than-255-send", "run-of-more-than-255-verify"},
 		Assumptions: []string{"the (MaxCount+1)-th send of a window may be accepted or refused (the statement leaves that boundary open); the first MaxCount must be accepted and the (MaxCount+2)-th refused",
 			"every verification attempt against a sent code counts towards the attempt limit; a successful verification does not consume the code", "SMS sender failures are not injected (the statement is silent about them)"},
 	})
